@@ -37,7 +37,7 @@ def shards(tier, seed):
     out = []
     for kind in ("GaussianMeasure", "GaussianPDF"):
         for R in BOUNDS[tier]["R"]:
-            for vi in ([0, 1, 100] if tier == "quick" else [0, 1, 2, 3, 100, 101]):
+            for vi in ([0, 1, 100] if tier == "quick" else [0, 1, 2, 3, 100, 101, 102, 103, 104, 105]):
                 out.append(dict(id="C20/%s/R%d/v%d" % (kind, R, vi), kind=kind, R=R, vi=vi, cost=R, facts=dict(kind=kind, R=R)))
     return out
 
